@@ -179,6 +179,15 @@ CHECKS["C08"] = dict(
    note=FA_NOTE + " The specification reads the property's statement: parameters of the function and of enclosing lambdas shadow; locals are not judged; definitions precede callers in the matrix module.",
    design_ref="DESIGN.md section 6 C08, section 11")
 
+CHECKS["C07"] = dict(
+   technique="Coq (partial): termination theorem for the import BFS with an explicit fuel bound (measure = unseen origins x max imports + queue length), accept-or-fatal theorem for annotation validation, kernel-checked refutation witnesses (the faithful visitor model raises on unnameable store / del / for receivers; the resolver model never terminates on a re-export cycle); search by grammar-wide generated real runs (function bodies through the FunctionAnalyser correspondence, module shapes as subprocesses x option sets)",
+   text=("PARTIAL, by nature of the property. Proved for all inputs: C07_import_bfs_terminates (any import graph, cycles included), C07_annotation_accepts_or_is_fatal; the visitors and resolvers of the model are structurally recursive Gallina functions, i.e. total. "
+         "Refuted on the faithful model: C07_unnameable_receiver_refuted (KF_C07_4), C07_reexport_cycle_never_ends (KF_C07_6). Everything else this check does is testing, labelled so in the evidence: every function body of the C01 catalogue (an escaping exception is a violation unless the model predicts exactly that exception), "
+         "and every module-level construct of the 3.12 grammar alone, on the imported side, combined, x 20 option sets, plus fixed projects (cycles, one file under two names, stdlib at -f 3, deep nesting, long chains) as real subprocesses judged by exit status, JSON validity and the last stderr lines, with a 60 s limit standing in for non-termination. "
+         "Seven finding classes are listed; any crash outside them (by construct label and exception class) is reported with the program and command line as replay."),
+   note=COMMON_NOTE + "Crashes inside unmodelled library code (cattrs, argparse, isort, ast) can only be met by the generated runs. The wrong-shape cache crash (C19) and the malformed-annotation crashes (C11) were repaired by fix commits e026aed and 66cc389.",
+   design_ref="DESIGN.md section 6 C07, section 11")
+
 NOT_YET = {}
 
 def main():
